@@ -553,6 +553,9 @@ class Interp:
             if fn is None:
                 raise Unsupported('promoted ' + c)
             return self.run(fn, []), False
+        m = re.match(r'(?:core::num::<impl )?(u8|u16|u32|u64|u128|usize|i8|i16|i32|i64|i128|isize)>?::(MIN|MAX)$', c)
+        if m:
+            return RANGES[m.group(1)][0 if m.group(2) == 'MIN' else 1], True
         if c.startswith('PhantomData') or c == 'std::alloc::Global':
             return Adt(c.split('::')[0], 0, []), True
         if c.endswith('SizedTypeProperties>::SIZE') or c.endswith('SizedTypeProperties>::ALIGN'):
